@@ -40,8 +40,8 @@
    tokens after the closing parenthesis of (edif ..) ([elab_tokens]: exactly one balanced form).
 
    Outside the modelled subset ([FeUnsupported], counted by the harness, never compared):
-   non-ASCII atoms, references / net names containing * or ? (used as wildcard patterns by the
-   get_* lookups), a second view in a cell, float numbers (number (e m x)), string property values
+   non-ASCII atoms, port / instance references containing * or ? (used as wildcard patterns by the
+   get_* lookups; NET names are looked up exactly since the repair of K7), a second view in a cell, float numbers (number (e m x)), string property values
    whose escapes %n% name a character above 127, arrays / bus indices above [max_bits].
 
    Every sibling check is made where the code makes it (add_port / add_child / add_definition /
@@ -646,7 +646,7 @@ Definition parse_net (cx : ctx) (insts : list einst) (cabs : list (entry pd)) (a
     if negb (is_kw "joined" j) then Err FeShape else
     do w <- loop (joined_step cx insts cabs) false [] jargs;
     do _ <- loop net_step false tt rest;
-    if has_wild (nm_name n) || big_index (nm_ident n) (nm_name n) then Err FeUnsupported else
+    if big_index (nm_ident n) (nm_name n) then Err FeUnsupported else
     match read_net cabs (nm_ident n, nm_name n, w) with
     | Some cabs' => Ok cabs'
     | None => Err FeNetName
